@@ -65,7 +65,7 @@ func (eng *Engine) verifyFunction(fn *ssa.Function, c *FuncContract, checkLocks 
 		res.Panic = "function has no body"
 		return
 	}
-	st := &State{heap: map[string]Term{}, fresh: map[string]bool{}, published: map[string]bool{}, facts: map[string]bool{}, arrVals: map[string]Value{}, freshSeq: map[string]int{}, roots: map[string]rootInfo{}, ownKeys: map[string]map[string]bool{}}
+	st := &State{heap: map[string]Term{}, fresh: map[string]bool{}, published: map[string]bool{}, facts: map[string]bool{}, arrVals: map[string]Value{}, freshSeq: map[string]int{}, roots: map[string]rootInfo{}, ownKeys: map[string]map[string]bool{}, defCache: map[string]string{}}
 	st.allocTop = e.declare("top0", SInt)
 	st.now = e.declare("now0", SInt)
 	st.assert(Le(Zero, st.allocTop))
@@ -272,6 +272,9 @@ func (e *Exec) finishPath(st *State, fr *Frame, res []Value, pos token.Pos, pani
 				cell = true // the source variable was reassigned: use its current value
 			}
 		}
+		if _, isParam := e.top.params[n]; !isParam {
+			cell = false // only parameters are overridden by their current value; result names keep their meaning
+		}
 		if !have || cell {
 			// (a variable whose address is taken, e.g. captured by a deferred
 			// closure, denotes its current value; old(...) still sees the entry heap)
@@ -402,7 +405,7 @@ func (eng *Engine) lemmaObligations(tag string) (*FuncResult, error) {
 			}
 		}
 		e := newExec(eng, nil)
-		st := &State{heap: map[string]Term{}, fresh: map[string]bool{}, published: map[string]bool{}, facts: map[string]bool{}, arrVals: map[string]Value{}, freshSeq: map[string]int{}, roots: map[string]rootInfo{}, ownKeys: map[string]map[string]bool{}}
+		st := &State{heap: map[string]Term{}, fresh: map[string]bool{}, published: map[string]bool{}, facts: map[string]bool{}, arrVals: map[string]Value{}, freshSeq: map[string]int{}, roots: map[string]rootInfo{}, ownKeys: map[string]map[string]bool{}, defCache: map[string]string{}}
 		st.allocTop = e.declare("top0", SInt)
 		st.now = e.declare("now0", SInt)
 		env := &SpecEnv{e: e, st: st, vars: map[string]Value{}, what: "lemma " + l.Name}
